@@ -47,6 +47,16 @@ def build_config(scn):
         suite = {'gauge_adapter': 'RebenchLog' if r.get('adapter', True) else 'NoSuchThing',
                  'command': '%(benchmark)s %(invocation)s' + deco.get('cmd_suffix', ''),
                  'benchmarks': [bench]}
+        # settings at two configuration levels: the suite (general) and the benchmark (specific, wins);
+        # `inherit_*`: only the suite level carries the effective value
+        if r.get('inherit_retries'):
+            suite['retries_after_failure'] = r.get('retries', 0)
+        elif r.get('general_retries') is not None:
+            suite['retries_after_failure'] = r['general_retries']
+        if r.get('inherit_N'):
+            suite['invocations'] = r['N']
+        elif r.get('general_N') is not None:
+            suite['invocations'] = r['general_N']
         if r.get('sbuild') is not None:
             suite['location'] = '.'
             suite['build'] = ['sbuild %d' % r['sbuild']]
@@ -61,7 +71,8 @@ def build_config(scn):
         if deco.get('env'):
             e['env'] = dict(deco['env'])
         if r.get('ebuild') is not None:
-            e['build'] = ['ebuild %d' % r['ebuild']]
+            # `ebuild_text`: executors in different directories may have textually identical build commands
+            e['build'] = ['ebuild %d' % r.get('ebuild_text', r['ebuild'])]
         prev = execs.get('E%d%s' % (r['exe'], nsfx))
         if prev is not None and prev.get('build') and not e.get('build'):
             e['build'] = prev['build']
@@ -73,8 +84,11 @@ def build_config(scn):
 
 
 def _bench_details(r):
-    d = {'invocations': r['N'], 'retries_after_failure': r.get('retries', 0),
-         'execute_exclusively': bool(r.get('excl', True))}
+    d = {'execute_exclusively': bool(r.get('excl', True))}
+    if not r.get('inherit_N'):
+        d['invocations'] = r['N']
+    if not r.get('inherit_retries'):
+        d['retries_after_failure'] = r.get('retries', 0)
     if r.get('warmup') is not None:
         d['warmup'] = r['warmup']
     if r.get('ignore_timeouts'):
@@ -122,6 +136,10 @@ class Script(object):
         self.lock = threading.Lock()
         self.gate = None       # thread controller (parallel scenarios)
         self.unknown = []
+        # builds with identical text are told apart by the directory they run in
+        self.dir_build = dict((r['exe'], r['ebuild']) for r in scn['runs']
+                              if r.get('file') is not None and r.get('ebuild') is not None
+                              and r.get('ebuild_text') is not None)
 
     def __call__(self, rec):
         args = rec['args']
@@ -172,6 +190,9 @@ class _BuildOutcome(drive.Outcome):
         if not m:
             return 0
         key = '%s%s' % (m.group(1), m.group(2))
+        cm = re.search(r'dir(\d+)/?$', str(self._rec.get('cwd') or ''))
+        if m.group(1) == 'e' and cm and int(cm.group(1)) in self._script.dir_build:
+            key = 'e%d' % self._script.dir_build[int(cm.group(1))]
         with self._script.lock:
             if not self._rec.get('logged'):
                 self._rec['logged'] = True
